@@ -81,7 +81,8 @@ def run(ctx):
     if not quick:
         jobs += list(D.deviation_docs([['**kern', '**text']], 3, (ctx.seed,), menu=['d', 'z', 'S0', 'J0', 'g', 'i']))
     jobs += token_skeleton_jobs(ctx.seed)
-    ctx.pmap(_job, list(X.chunks(jobs, 150)), chunksize=1)
+    longs = D.long_docs(ctx.seed) + D.long_docs(ctx.seed + 4)
+    ctx.pmap(_job, [[j] for j in longs] + list(X.chunks(jobs, 150)), chunksize=1)
 
 
 def replay(case):
